@@ -25,7 +25,7 @@ def gen_family(seed, fam):
     those calls, so that one fresh-process reference per distinct call serves many runs (a forked child
     costs ~35 ms in this sandbox and page faults do not scale across cores)."""
     r = seeds.rng(seed, 'api-family', fam)
-    if r.random() < 0.1:
+    if r.random() < 0.15:
         return gen_sweep_family(r)
     big = r.random() < 0.3            # allow mid-sized / docs sources (their runs are always sequential)
     pool_src = _sources_for(r, not big)
@@ -186,11 +186,19 @@ SWEEP_OPTION_SETS = [
 def gen_sweep_family(r):
     """Systematic part of the history search: ~30 corpus modules of every kind, ONE option set, and each run of the
     family minifies all of them once, in a fresh random order, in one process.  A run covers every ordered pair
-    "module A somewhere before module B" of its permutation (435 pairs), so state that one KIND of module leaves
+    "module A somewhere before module B" of its permutation (several hundred pairs), so state that one KIND of module leaves
     behind for another kind is reached without a hand-written pair."""
     pool = [(n, s) for n, s in corpus.api_small()] + [(n, b) for n, b in corpus.api_bytes()]
-    pool = [x for x in pool if 'a59_' not in x[0] and 'a56_' not in x[0]]       # (stack-hungry / slow ones stay in their themes)
-    chosen = r.sample(pool, 30)
+    pool = [x for x in pool if 'a59_' not in x[0]]       # (the stack-hungry one stays in its own theme)
+    # every module that takes part in a hand-written pair is always in, so that one sweep family covers all of
+    # those pairs (in both orders) under its option set; ten others are drawn
+    special = set()
+    for pr in corpus.FEEDER_PAIRS + corpus.VARIANT_PAIRS + corpus.STATE_PAIRS:
+        special.update(pr[:2])
+    chosen = [x for x in pool if x[0] in special]
+    rest = [x for x in pool if x[0] not in special]
+    chosen += r.sample(rest, 10)
+    r.shuffle(chosen)
     opt = r.choice(SWEEP_OPTION_SETS)
     templates = [{'api': 'minify', 'src': i, 'kw': dict(opt['kw']), 'ra': opt['ra']} for i in range(len(chosen))]
     return {'sources': [c[1] for c in chosen], 'names': [c[0] for c in chosen], 'lists': [[]], 'opts': [], 'templates': templates,
